@@ -524,11 +524,14 @@ def norm_rule(run, repo, orders, F):
     """D8: structure of TT.norm (the value itself is numerical): what is measured is the receiver, in a form in which the measured core carries the whole norm"""
     from .p_c03 import working_object
     entry = f'{TTM}.TT.norm'
-    for d, kind, p in itertools.product(orders, ('op', 'vec'), (2, 1)):
-        scen = f'norm(order={d}, {kind}, p={p})'
+    for d, kind, p, unit in itertools.product(orders, ('op', 'vec'), (2, 1), (False, True)):
+        if unit and (p == 2 or d < 2):
+            continue          # p = 1 with one row mode of size 1 among larger ones (the row-vector test must look at ALL row modes)
+        scen = f'norm(order={d}, {kind}, p={p}{", row mode 1 of size 1" if unit else ""})'
 
         def body(sc):
-            a = sc.tt('a', d, kind, square=False, dtype='complex' if p == 2 else 'real')
+            row = [1 if (unit and k == 1) else sc.mode(k) for k in range(d)]
+            a = sc.tt('a', d, kind, square=False, dtype='complex' if p == 2 else 'real', **({'row': row} if unit else {}))
             sc.inputs = (a,)
             sc.old = list(a._attrs['cores'])
             return sc.method(a, 'norm', p=p)
@@ -601,6 +604,14 @@ def norm_rule(run, repo, orders, F):
                     bad.append(f'cores {missing} of the receiver do not enter the 1-norm')
                 if any(v.origin in ('norm',) for v in anc.values()):
                     bad.append('a Euclidean norm is computed for p = 1')
+                # the maximum runs over column indices only: every row index has been summed over (maximum absolute COLUMN sum; for a vector the sum of all entries)
+                arg = res.parents[0] if res.origin == 'amax' and res.parents and isinstance(res.parents[0], Arr) else None
+                if arg is None:
+                    unknown.append('the argument of the maximum')
+                else:
+                    left = [l.resolve() for g in arg.legs for l in g if l.resolve().kind == 'M' and l.resolve().var > 0 and not A.is_one(l.resolve().size)]
+                    if left:
+                        bad.append(f'the maximum is taken over an array that still carries the row indices {left}: the rows were not summed (the train was transposed although it is not a row vector, or the wrong axis was summed)')
             if unknown and not bad:
                 raise AnalysisError(f'{scen}: undecided: ' + '; '.join(unknown[:2]))
             run.oblige('D8', (entry, scen), not bad)
